@@ -92,11 +92,18 @@ def run(ctx):
         mod = "c2w_%d" % os.getpid()
         src = ("import dds\nimport pathlib\nimport datetime\nfrom ddsverif_rt import log, term\n\n"
                "RAW = pathlib.Path('data/raw.csv')\nHERE = pathlib.Path('.')\nABS = pathlib.Path('/abs/x.csv')\nDAY = datetime.date(2021, 3, 1)\nN = 3\n"
-               "STOP = frozenset({'the', 'a', 'of', 'and', 'to', 'in'})\nNA = {'', 'NA', 'null', None, 'n/a'}\n\n"
+               "STOP = frozenset({'the', 'a', 'of', 'and', 'to', 'in'})\nNA = {'', 'NA', 'null', None, 'n/a'}\n"
+               "START = datetime.datetime(2021, 3, 4, 5, 6)\nAWARE = datetime.datetime(2021, 3, 4, 5, 6, tzinfo=datetime.timezone(datetime.timedelta(hours=2)))\n\n"
+               # results that are empty / falsy: they are results like any other, served from the store afterwards
+               "def e_str():\n    log('e_str')\n    return ''\n\ndef e_bytes():\n    log('e_bytes')\n    return b''\n\n"
+               "def e_none():\n    log('e_none')\n    return None\n\ndef e_list():\n    log('e_list')\n    return []\n\n"
+               "def e_zero():\n    log('e_zero')\n    return 0\n\n"
+               "def empties():\n    log('empties')\n    return term('empties', repr(dds.keep('/w/e/str', e_str)), repr(dds.keep('/w/e/bytes', e_bytes)), "
+               "repr(dds.keep('/w/e/none', e_none)), repr(dds.keep('/w/e/list', e_list)), repr(dds.keep('/w/e/zero', e_zero)))\n\n"
                "def source():\n    log('source')\n    return term('source', str(RAW), str(HERE), str(sorted(STOP)), str(sorted(map(str, NA))))\n\n"
-               "def other():\n    log('other')\n    return term('other', str(ABS), str(DAY), N)\n\n"
+               "def other():\n    log('other')\n    return term('other', str(ABS), str(DAY), N, str(START), str(AWARE))\n\n"
                "def summary():\n    log('summary')\n    return term('summary', dds.keep('/w/source', source), dds.keep('/w/other', other))\n\n"
-               "def f0():\n    log('f0')\n    return dds.keep('/w/summary', summary)\n")
+               "def f0():\n    log('f0')\n    return term('f0', dds.keep('/w/summary', summary), empties())\n")
         os.makedirs(os.path.join(base, "code"))
         with open(os.path.join(base, "code", mod + ".py"), "w") as fh:
             fh.write(src)
@@ -106,10 +113,11 @@ def run(ctx):
         for c in cwds:
             os.makedirs(c)
         entry = {"kind": "eval", "fun": "f0"}
+        KEPT_NAMES = ("source", "other", "summary", "e_str", "e_bytes", "e_none", "e_list", "e_zero")
         first = None
         for ci, c in enumerate(cwds):
             # (each process also has its own hash seed: the iteration order of sets differs between them)
-            wk = pipeline.WorkerProc("real", cwd=c, env={"PYTHONHASHSEED": str(11 + 7 * ci)})
+            wk = pipeline.WorkerProc("real", cwd=c, env={"PYTHONHASHSEED": str(11 + 7 * ci), "TZ": ["UTC0", "JST-9", "EST5EDT"][ci % 3]})
             try:
                 wk.call(cmd="store_api", internal_dir=os.path.join(base, "si"), data_dir=os.path.join(base, "sd"), cache_objects=None)
                 wk.call(cmd="world", dir=os.path.join(base, "code"), module=mod, extmod="c2e_none")
@@ -120,7 +128,7 @@ def run(ctx):
                     first = r
                     continue
                 bad = None
-                ran = [x for x in r["log"] if x in ("source", "other", "summary")]
+                ran = [x for x in r["log"] if x in KEPT_NAMES]
                 if r["error"] is not None or r["value"] != first["value"]:
                     bad = "evaluation from another working directory: error %s, value %r vs %r" % (r["error"], r["value"], first["value"])
                 elif ran or r["paths"] != first["paths"]:
@@ -128,7 +136,7 @@ def run(ctx):
                 else:
                     wk.call(cmd="cwd", dir=cwds[0])
                     r2 = wk.call(cmd="run", entry=entry)
-                    ran2 = [x for x in r2["log"] if x in ("source", "other", "summary")]
+                    ran2 = [x for x in r2["log"] if x in KEPT_NAMES]
                     if r2["error"] is not None or ran2 or r2["paths"] != first["paths"]:
                         bad = "after os.chdir in the same process the unchanged program re-executes %s (error %s)" % (ran2, r2["error"])
                 if bad:
